@@ -114,8 +114,11 @@ def judge_class_path(mtype, action, path, base, x):
         return ("crash", type(e).__name__), True
     back = json.loads(msg.to_json(), parse_float=decimal.Decimal)
     cur = back[3] if mtype == "Call" else back[2]
-    for k in path:
-        cur = cur[k]
+    try:
+        for k in path:
+            cur = cur[k]
+    except (KeyError, IndexError, TypeError):
+        return ("accept", None), False            # the value is not on the wire at all
     want = decimal.Decimal(repr(x)) if isinstance(x, float) else x
     return ("accept", None), (cur == want and isinstance(cur, int) == isinstance(x, int))
 
@@ -322,6 +325,28 @@ def ambient_contexts(rep):
                                                                        "/".join(map(str, path)), v, "in the executor" if flag else "inline", want),
                                       {"kind": "ambient-context", "context": name, "mtype": mtype, "action": action, "path": list(path),
                                        "value": x, "async_validation": flag, "verdict": list(v), "expected": list(want)})
+    # the process-wide TEMPLATE context (decimal.DefaultContext), which applications are documented to adjust before they
+    # start threads: the library's arithmetic does not take its precision from there either
+    saved = decimal.DefaultContext.prec
+    decimal.DefaultContext.prec = 6
+    try:
+        for pos_i, (mtype, action, path) in enumerate(POSITIONS):
+            base = base_payload(mtype, action)
+            for x in (100000.0, 1234567.8, 21.4, 100000.05):
+                for flag in (False, True):
+                    v = judge_public(mtype, action, path, base, x, flag, {})
+                    n += 1
+                    rep.count("default-context:%d:%r:%s" % (pos_i, x, flag))
+                    want = ("accept", None) if frac_digits(x) <= 1 else ("reject", "FormatViolation")
+                    if v != want:
+                        rep.violation("C14:ambient-context:DefaultContext.prec=6:%s:%s" % ("executor" if flag else "inline", want[0]),
+                                      "with decimal.DefaultContext.prec = 6 (and the current context derived from it), value %r in %s %s %s is "
+                                      "judged %r %s, expected %r" % (x, mtype, action, "/".join(map(str, path)), v,
+                                                                    "in the executor" if flag else "inline", want),
+                                      {"kind": "ambient-context", "context": "DefaultContext.prec=6", "mtype": mtype, "action": action,
+                                       "path": list(path), "value": x, "async_validation": flag, "verdict": list(v), "expected": list(want)})
+    finally:
+        decimal.DefaultContext.prec = saved
     rep.coverage["ambient_context_evaluations"] = n
 
 
@@ -351,7 +376,7 @@ def body_factory(tier, seed):
         n_cls = 0
         for pos_i, (mtype, action, path) in enumerate(POSITIONS):
             base = base_payload(mtype, action)
-            vals = [21.4, 21.45, 0.15, 4.11, 16.05, 7, 0.3, 100.01, 2.675, -0.1, 99999999.9]
+            vals = [21.4, 21.45, 0.15, 4.11, 16.05, 7, 0.3, 100.01, 2.675, -0.1, 99999999.9, 0, 0.0, 0.1, 1]
             vals += [rng2.randrange(-99999, 99999) / 10 for _ in range(40)] + [rng2.randrange(-99999, 99999) / 100 for _ in range(40)]
             for x in vals:
                 v, wire_ok = judge_class_path(mtype, action, path, base, x)
@@ -406,6 +431,16 @@ def replay(d):
         from harness.props import c04
         return c04.replay_cold(d)
     mtype, action, path, x = d["mtype"], d["action"], tuple(d["path"]), d["value"]
+    if d.get("kind") == "ambient-context" and d["context"].startswith("DefaultContext"):
+        saved = decimal.DefaultContext.prec
+        decimal.DefaultContext.prec = 6
+        try:
+            v = judge_public(mtype, action, path, base_payload(mtype, action), x, d["async_validation"], {})
+        finally:
+            decimal.DefaultContext.prec = saved
+        print("with DefaultContext.prec = 6: %r, expected %r" % (v, tuple(d["expected"])))
+        print("HOLDS" if list(v) == d["expected"] else "FAILS")
+        return 0 if list(v) == d["expected"] else 1
     if d.get("kind") == "ambient-context":
         v = judge_public(mtype, action, path, base_payload(mtype, action), x, d["async_validation"], AMBIENT[d["context"]])
         print("under the application context %s: %r, expected %r" % (d["context"], v, tuple(d["expected"])))
